@@ -307,6 +307,9 @@ func (r *Transport) Close() error {
 //
 // It implements the Closer interface.
 func (r *Transport) CloseWithStatus(status transport.CloseStatus) error {
+	// first: a redial in progress holds the mutex for its whole budget unless it sees the transport closed,
+	// and pending writes wait for it
+	r.cancel()
 	r.mu.Lock()
 	defer r.mu.Unlock()
 	var err error
@@ -395,7 +398,9 @@ func (r *Transport) reconnect(old transport.Transport) error {
 		if err == nil {
 			if _, err := newTransport.Read(); err != nil {
 				rerr = err
-				time.Sleep(r.reconnectInterval)
+				if !r.pause() {
+					return errors.ErrConnectionClosed
+				}
 				continue
 			}
 			r.logger.Infof(r.ctx, "Successfully reconnected on attempt %d", i+1)
@@ -403,9 +408,23 @@ func (r *Transport) reconnect(old transport.Transport) error {
 			return nil
 		}
 		rerr = err
-		time.Sleep(r.reconnectInterval)
+		if !r.pause() {
+			return errors.ErrConnectionClosed
+		}
 	}
 	return fmt.Errorf("reconnect: %w", rerr)
+}
+
+// pause waits for the reconnect interval; false if the transport was closed meanwhile.
+func (r *Transport) pause() bool {
+	t := time.NewTimer(r.reconnectInterval)
+	defer t.Stop()
+	select {
+	case <-t.C:
+		return true
+	case <-r.ctx.Done():
+		return false
+	}
 }
 
 func (r *Transport) closed() bool {
